@@ -754,6 +754,60 @@ h_proof! { #[kani::unwind(4)] fn c14_u_vring_num_65536_max32768() { vring_num(65
 // @harness props=C14,C05 tier=quick reach=off bound="SET_VRING_NUM size 65792 with backend maximum 32768: all u32 ring indexes (1 ring)" stubs="Epoll::ctl, close/OwnedFd::drop"
 h_proof! { #[kani::unwind(4)] fn c14_u_vring_num_65792_max32768() { vring_num(65792, 32768) } }
 
+// @harness props=C14,C09,C11 tier=quick reach=off timeout=900 bound="call descriptor of a ring over every history of 3 messages from {SET_VRING_CALL with a new descriptor, SET_VRING_CALL without descriptor, GET_VRING_BASE} (2 Mutex rings, symbolic ring), then signal_used_queue on both rings: exactly the most recently installed descriptor is signalled, once; nothing when none is installed; replaced / removed descriptors are closed once" stubs="Epoll::ctl, EventNotifier::notify (ghost counters), close/OwnedFd::drop"
+h_proof! { #[kani::unwind(4)] fn c14_u_call_descriptor() {
+    let (mut h, _) = mk_handler_m(2, &[0b11]);
+    let q: usize = kani::any();
+    kani::assume(q < 2);
+    let mut cur: Option<RawFd> = None;
+    let mut installed = [false; 3];
+    let mut i = 0;
+    while i < 3 {
+        let op: u8 = kani::any();
+        kani::assume(op < 3);
+        let fd = vgm::FD0 + i as RawFd;
+        match op {
+            0 => {
+                let r = h.set_vring_call(q as u8, Some(file(fd)));
+                assert!(r.is_ok());
+                std::mem::forget(r);
+                cur = Some(fd);
+                installed[i] = true;
+            }
+            1 => {
+                let r = h.set_vring_call(q as u8, None);
+                assert!(r.is_ok());
+                std::mem::forget(r);
+                cur = None;
+            }
+            _ => {
+                let r = h.get_vring_base(q as u32);
+                assert!(r.is_ok());
+                std::mem::forget(r);
+                cur = None;
+            }
+        }
+        i += 1;
+    }
+    assert!(vr::call_fd(&h.vrings[q]) == cur, "C14: the ring's call descriptor is the one most recently installed (none after a SET_VRING_CALL without descriptor or GET_VRING_BASE)");
+    assert!(vr::call_fd(&h.vrings[1 - q]).is_none(), "C14: other rings untouched");
+    let r0 = h.vrings[0].signal_used_queue();
+    let r1 = h.vrings[1].signal_used_queue();
+    assert!(r0.is_ok() && r1.is_ok());
+    std::mem::forget(r0);
+    std::mem::forget(r1);
+    kani::cover!(cur.is_some() && installed[0] && installed[1]);
+    let mut k = 0;
+    while k < 3 {
+        let fd = vgm::FD0 + k as RawFd;
+        let want = if cur == Some(fd) { 1 } else { 0 };
+        assert!(vgm::vg().notified[k] == want, "C14: used buffers are signalled on the call descriptor most recently installed for that ring, and on no other (nothing when none is installed)");
+        assert!(vgm::vg().closed[k] == (installed[k] && cur != Some(fd)), "C09: a replaced / removed call descriptor is closed, the installed one stays open");
+        k += 1;
+    }
+    assert!(!vgm::vg().double_close);
+} }
+
 // @harness props=C14,C05 tier=quick reach=off bound="SET_VRING_BASE then GET_VRING_BASE: 1 ring (a symbolic index over several lock-protected rings makes every lock operation a pointer case split), all u32 indexes and bases" stubs="Epoll::ctl, close/OwnedFd::drop"
 h_proof! { #[kani::unwind(6)] fn c14_u_vring_base() {
     let (mut h, _) = mk_handler_m(1, &[0b1]);
